@@ -865,6 +865,16 @@ class Sim:
         for t in p.threads:
             if t.state in (RUNNABLE, BLOCKED, NEW):
                 t.state = FROZEN
+            half = getattr(t, 'spawning', None)
+            if half is not None:
+                # the process died while one of its threads was handing a child its start-up data (spawn): the real child's
+                # bootstrap reads end-of-file from the dead parent and exits, closing the descriptors it had inherited
+                t.spawning = None
+                if half.state == 'running' and half.main is None:
+                    kernel.close_all_fds(self, half)
+                    half.state = 'reaped'
+                    half.exitcode = 1
+                    self.ev('half-spawned-child-gone', half.name)
         kernel.close_all_fds(self, p)
         self._wake_q(p.exit_q)
         # orphaned children keep running (re-parented to init), as on a real OS
